@@ -496,6 +496,8 @@ func RunC05(d *Driver) *Report {
 	}
 	nscope := scopeStream(r, d, rng, nsc)
 	r.Rule += fmt.Sprintf("; variable rules: %d programs over five num variables (declarations, reads, assignments, if chains, while, for with and without loop variable, functions and handlers with parameters, shadowing, depth <= 3; built well scoped, half of them broken by one or two edits): accepted by the real parser iff Model/Scope.lean accepts them, and a program that model rejects breaks a variable rule by accepted_program_is_well_scoped", nscope)
+	nctl := ctlStream(r, d, rng, nsc)
+	r.Rule += fmt.Sprintf("; break and return: %d programs of nested branches and loops at top level, in functions with and without result type and in handlers, with break / return / return 1 closing a third of the blocks wherever they fall: accepted by the real parser iff Model/Ctl.lean accepts them (accepted_iff_control_well_placed)", nctl)
 	r.DriverCalls = d.N
 	return r
 }
